@@ -137,6 +137,12 @@ class Tr:
                 self.need(exc, t)
                 out.append("(PClassify true)")
             elif t == "klass = classify_for_breaker(exc, None)":
+                # unguarded: if reading the exception's attributes raises, the call ends without a record (finding 7.17)
+                raise TranslationError("classify_for_breaker(exc, None) outside a guard that settles the breaker when it raises")
+            elif t == ("try:\n    klass = classify_for_breaker(exc, None)\nexcept BaseException:\n    record_cancel(ctx)\n    raise"):
+                # the guarded classification of the entry points without retry component.  Classifiers are total functions in the
+                # model (Classify.v), so the handler is dead code there: the statement reads as the classification alone; the handler
+                # is exercised on the implementation by the fault sweep of C08 (exceptions whose status / code cannot be read)
                 self.need(exc, t)
                 out.append("(PClassify false)")
             elif t == "record_failure(ctx, klass)":
@@ -202,7 +208,9 @@ PINS = {
     "execution.py:emit_admission_event": "61453014e58acb40",
     "execution.py:check_breaker": "8d38e65b1b30c53f",
     "execution.py:record_success": "759db0a9ac5fc673",
-    "execution.py:record_cancel": "a7b0336fdbb639fa",
+    # records a cancel unless the call has already reported (in the model a cancel handler is never reached after a report: no
+    # BaseException comes out of a hook there; the fault sweep of C09 exercises the guard)
+    "execution.py:record_cancel": "b5f78a89b4f1d89b",
     "execution.py:record_failure": "4d6b3381bd5113f3",
     "execution.py:settle_if_unsettled": "ef1cd7abeb852c59",
     "execution.py:classify_for_breaker": "013e1a849747c1cc",
